@@ -65,6 +65,7 @@ MODEL_NAMES = dict(plate='plate_clt_donnell_bardell', plateW='plate_clt_donnell_
 INPUT_HIDDEN = ['model', 'r', 'alpharad', 'plyts', 'laminaprops', 'lam', 'F', 'size', 'Mach', 'k0', 'kG0', 'kM', 'kA']
 WRITE_ATTRS = ['model', 'r', 'alpharad', 'plyts', 'laminaprops', 'lam', 'F', 'size', 'Mach', 'k0', 'kG0', 'kT', 'kM',
                'kA', 'cA', 'eigvals', 'eigvecs', 'u', 'v', 'w', 'phix', 'phiy', 'Xs', 'Ys', 'increments']
+SOLVER_TAIL = {'lb': ['eigvals', 'eigvecs'], 'freq': ['eigvals', 'eigvecs'], 'static': ['increments']}
 PANEL_OPS = ['getSize', 'k0:0', 'k0:1', 'kL:0', 'kL:1', 'kG0:0', 'kG0:1', 'kG:0', 'kG:1', 'kT:0', 'kT:1', 'kM:0',
              'kM:1', 'kA:0', 'kA:1', 'cA', 'lb', 'freq:1', 'freq:2', 'freq:3', 'freq:4', 'fext:0', 'fext:1', 'fint:0',
              'fint:1', 'static', 'uvw', 'strain', 'stress:0', 'stress:1', 'ktkr']
@@ -458,6 +459,13 @@ def panel_case(ctx, D, ops, replies, dist, hook=None):
         dist['outcomes'][r['oc']] = dist['outcomes'].get(r['oc'], 0) + 1
         dist['ops'][r['op'].split(':')[0]] = dist['ops'].get(r['op'].split(':')[0], 0) + 1
         what = None
+        name = r['op'].split(':')[0]
+        if (r['oc'] != m['oc'] and m['oc'] == 'ok' and name in SOLVER_TAIL and r['R'] == set(m['R'])
+                and r['W'] == [w for w in m['W'] if w not in SOLVER_TAIL[name]]):
+            # every modelled statement up to the external eigen / linear solver ran; the solver itself raised
+            # (singular / too few free dofs: C05/C06 territory) - not a life-cycle disagreement
+            dist['solver_failures'] += 1
+            continue
         if r['oc'] != m['oc']:
             what = 'outcome: model %s, implementation %s (%s)' % (m['oc'], r['oc'], r['err'])
         elif r['W'] != m['W']:
@@ -598,7 +606,7 @@ def panel_lifecycle(ctx, hook=None, n=None):
     if len(replies) != len(lines) or any(r.startswith('err') for r in replies):
         raise RuntimeError('driver: %r' % [r for r in replies if r.startswith('err')][:3])
     dist = dict(outcomes={}, ops={}, fresh_ok=0, fresh_fail=0, fresh_fail_known={}, order_dependent_known=0,
-                token_differs_numbers_equal=0, cases=len(cases))
+                token_differs_numbers_equal=0, solver_failures=0, cases=len(cases))
     for (D, ops), (i0, k) in zip(cases, idx):
         if panel_case(ctx, D, ops, replies[i0:i0 + k], dist, hook):
             break
@@ -622,7 +630,7 @@ def replay(ctx, data):
     if r.get('kind') == 'panel':
         D, ops = r['definition'], r['ops']
         dist = dict(outcomes={}, ops={}, fresh_ok=0, fresh_fail=0, fresh_fail_known={}, order_dependent_known=0,
-                    token_differs_numbers_equal=0, cases=1)
+                    token_differs_numbers_equal=0, solver_failures=0, cases=1)
         replies = driver(panel_lines(D, ops), pid='C20')
         panel_case(ctx, D, ops, replies, dist)
         print(json.dumps(dist))
